@@ -12,7 +12,8 @@ import metamorph as M
 import semcheck
 import templates
 
-RULE = ('generated programs over the full feature mask (aggregation, negation, injection, functional, nested '
+RULE = ('functor programs of C04 x 2 consistent renamings of all predicates to names that sort differently; '
+        'generated programs over the full feature mask (aggregation, negation, injection, functional, nested '
         'combines) x 6 variants each (rule/fact permutation, conjunct/disjunct permutation, variable renaming '
         'with keyword pool, variable renaming with tricky pool, predicate renaming with keyword pool, predicate '
         'renaming with tricky pool); every predicate compared; non-trivial = non-empty result for some derived '
@@ -33,8 +34,70 @@ def run_corpus(ck):
           {'program': c['program'], 'variant_program': c['variant_program']})
 
 
+FUNCTOR_POOLS = [['Aa', 'Bq', 'Cz', 'Dd', 'Ee', 'Ff', 'Gg', 'Hh', 'Ii', 'Jj', 'Kk', 'Ll', 'Mm', 'Nn', 'Oo', 'Pp'],
+                 ['Zz', 'Yy', 'Xx', 'Ww', 'Vv', 'Uu', 'Tt', 'Ss', 'Rr', 'Qq', 'Po', 'Om', 'Nm', 'Ml', 'Lk', 'Kj']]
+
+
+def functor_job(j):
+  text, variants, preds = j
+  base = semcheck.job_real((text, preds))
+  outs = []
+  for vname, vtext, ren in variants:
+    res = semcheck.job_real((vtext, [ren[p] for p in preds]))
+    outs.append((vname, {p: res[ren[p]] for p in preds}))
+  return base, outs
+
+
+def run_functor_programs(ck):
+  """programs with functor applications (made predicates, chains, functors reaching made predicates through
+  ordinary rules): consistent renaming of all user predicates - the new names sort differently from the old
+  ones - must not change any result."""
+  import re
+  from props import c04
+  progs, seen = [], set()
+  tries = 0
+  n = ck.budget(24, 400)
+  while len(progs) < n and tries < 20 * n:
+    tries += 1
+    p = c04.gen_case(ck.rng)
+    if not p.made or p.text() in seen:
+      continue
+    if c04.model_of(p) is None:
+      continue
+    seen.add(p.text())
+    progs.append(p)
+  jobs = []
+  for p in progs:
+    text = p.text()
+    names = sorted(set(re.findall(r'\b([A-Z][A-Za-z0-9]*)\b', text)) - {'Engine'})
+    variants = []
+    for vi, pool in enumerate(FUNCTOR_POOLS):
+      pool = list(pool)
+      ck.rng.shuffle(pool)
+      if len(names) > len(pool):
+        continue
+      ren = dict(zip(names, pool))
+      vtext = re.sub(r'\b([A-Z][A-Za-z0-9]*)\b', lambda m: ren.get(m.group(1), m.group(1)), text)
+      variants.append(('rename-preds-functor-%d' % vi, vtext, ren))
+    jobs.append((text, variants, list(p.query)))
+  for p, (text, variants, preds), (base, outs) in zip(progs, jobs, core.pmap(functor_job, jobs)):
+    for (vname, vtext, ren), (_, res) in zip(variants, outs):
+      ck.case([text, vname], any(base[q]['kind'] == 'ok' and base[q]['rows'] for q in preds), ['variant:' + vname, 'functor-program'])
+      for q in preds:
+        if base[q]['kind'] != 'ok' or res[q]['kind'] == 'too_big':
+          continue
+        rp = {'program': text, 'variant': vname, 'variant_program': vtext, 'pred': q, 'renamed_to': ren[q]}
+        if res[q]['kind'] != 'ok':
+          ck.violation('c07:%s:outcome:%s' % (vname[:-2], res[q]['kind']), 'variant %s: predicate %s (renamed %s) no longer evaluates: %s' % (
+              vname, q, ren[q], res[q].get('message', '')[:160]), rp)
+        elif sorted(map(tuple, base[q]['rows'])) != sorted(map(tuple, res[q]['rows'])):
+          ck.violation('c07:%s:rows' % vname[:-2], 'variant %s changes predicate %s (renamed %s): %s... -> %s...' % (
+              vname, q, ren[q], sorted(map(tuple, base[q]['rows']))[:3], sorted(map(tuple, res[q]['rows']))[:3]), rp)
+
+
 def run(ck):
   run_corpus(ck)
+  run_functor_programs(ck)
   n = ck.budget(26, 600)
   made = semcheck.make_programs(ck, n, MASK)
   made += semcheck.make_programs(ck, ck.budget(14, 300), None, {}, builder=templates.build)
